@@ -193,7 +193,43 @@ fn respell_bytes(rng: &mut Rng, decoded: &[u8], query: bool) -> Vec<u8> {
     out
 }
 
+/// The small byte-level helpers, exhaustively (all 256 bytes; all strings of length <= 4 over the
+/// whitespace alphabet for trimming): crate vs model.
+pub fn helper_pieces(ctx: &mut Ctx) {
+    let mut lines = Vec::new();
+    let mut want = Vec::new();
+    for b in 0u16..256 {
+        let b = b as u8;
+        lines.push(format!("UNRES {:02x}", b));
+        want.push(if imp::is_unreserved(b) { "1".to_string() } else { "0".to_string() });
+        lines.push(format!("UPHEX {:02x}", b));
+        want.push(hx(&imp::upper_hex(b)));
+        lines.push(format!("LATIN1 {:02x}", b));
+        want.push(hx(&imp::latin1(&[b])));
+    }
+    let alpha = [b' ', b'\t', b'\n', 0x0b, 0x0c, b'\r', b'a', 0xa0];
+    for len in 0..=4u32 {
+        for idx in 0..8usize.pow(len) {
+            let mut k = idx;
+            let v: Vec<u8> = (0..len).map(|_| { let c = alpha[k % 8]; k /= 8; c }).collect();
+            lines.push(format!("TRIM {}", hx(&v)));
+            want.push(hx(&imp::trim(&v)));
+        }
+    }
+    let got = ctx.drv.ask_all(&lines);
+    for ((l, w), g) in lines.iter().zip(want.iter()).zip(got.iter()) {
+        ctx.rep.count("evaluations");
+        ctx.rep.count("evaluations.HELPER");
+        ctx.rep.count("traces_validated_against_impl");
+        if w != g {
+            ctx.rep.fail(Failure { kind: "CORR", op: l.split(' ').next().unwrap().to_string(), class: "helper".into(), input: l.clone(), imp: w.clone(), model: g.clone(), spec: String::new(), clause: "implementation and model disagree on a byte-level helper (unreserved set, upper-case hex, Latin-1 widening, ASCII trimming)".into() });
+        }
+    }
+    ctx.rep.add("exhaustive.helper_cases", lines.len() as u64);
+}
+
 pub fn c09(ctx: &mut Ctx) {
+    helper_pieces(ctx);
     let mut tris = Vec::new();
     // (a) exhaustive: every byte literal (ASCII as is; high bytes inside a valid 2-byte sequence),
     // every %hh and %HH.
